@@ -3,5 +3,5 @@
 cd "$(dirname "$0")" || exit 1
 export GOFLAGS=-mod=mod GOPROXY=off GOSUMDB=off GOTOOLCHAIN=local
 mkdir -p bin .work/parts evidence/replays
-go build -tags verif -o bin/vcheck ./cmd/vcheck || exit 1
+/opt/veriftools/go1.26.8/bin/go test -c -vet=off -tags verif -o bin/vtest ./run || exit 1
 echo setup ok
